@@ -359,6 +359,13 @@ struct Run {
   std::vector<Mask> simplices_of_size(int lo, int hi) const {
     std::vector<Mask> r; for (Mask s = 1; s < M.in.size(); ++s) if (M.in[s] && pc(s) >= lo && pc(s) <= hi) r.push_back(s); return r;
   }
+  // simplices of dimension >= 2 that may become a blocker: in the complex and not a face of an existing blocker
+  // (a blocker set is pairwise non-nested)
+  std::vector<Mask> blocker_candidates() const {
+    std::vector<Mask> bl = M.blockers(), r;
+    for (Mask s : simplices_of_size(3, 32)) { bool nested = false; for (Mask b : bl) if ((b & s) == s) nested = true; if (!nested) r.push_back(s); }
+    return r;
+  }
   std::vector<int> alive_list() const { std::vector<int> r; Mask a = M.alive(); for (int v = 0; v < M.N; ++v) if (a & bit(v)) r.push_back(v); return r; }
   Mask random_subset(vh::Rng& r, const std::vector<int>& pool, int size) { std::vector<int> p = pool; r.shuffle(p); Mask m = 0; for (int i = 0; i < size && i < (int)p.size(); ++i) m |= bit(p[i]); return m; }
 
@@ -381,10 +388,10 @@ struct Run {
       }
       c.count("init.graph_and_blockers");
       if (!observe("op=init.flag_complex")) return false;
-      int nb = (int)r.below(5);
+      int nb = (int)r.below(7);
       for (int i = 0; i < nb; ++i) {
-        // a simplex of the current complex of dimension >= 2: automatically not nested with any existing blocker
-        std::vector<Mask> cand = simplices_of_size(3, 32);
+        // a simplex of the current complex of dimension >= 2 that is not a face of an existing blocker
+        std::vector<Mask> cand = blocker_candidates();
         if (cand.empty()) break;
         int maxsz = 0; for (Mask s : cand) maxsz = std::max(maxsz, pc(s));
         int want = 3 + (int)r.below(maxsz - 2);  // uniform over sizes, so large blockers are not rare
@@ -432,7 +439,7 @@ struct Run {
     unsigned op = (unsigned)r.below(100);
     std::vector<int> av = alive_list();
     std::vector<Mask> bl = M.blockers();
-    if (op < 5) {
+    if (op < 7) {
       if (M.N >= kMaxHandles) { c.count("skip.add_vertex_cap"); return true; }
       c.log("add_vertex");
       Vertex_handle v = cx->add_vertex();
@@ -441,7 +448,7 @@ struct Run {
       if (v.vertex != M.N - 1) { c.violation("vertices.add_vertex_return", "op=add_vertex,not_next_handle", "returned " + vh::str(v.vertex)); return false; }
       return observe("op=add_vertex");
     }
-    if (op < 22) {
+    if (op < 27) {
       // add an absent edge, with (add_edge) or without (add_edge_without_blockers) blockers on the triangles it closes
       std::vector<std::pair<int, int>> cand;
       for (size_t i = 0; i < av.size(); ++i) for (size_t j = i + 1; j < av.size(); ++j) if (!M.in[bit(av[i]) | bit(av[j])]) cand.emplace_back(av[i], av[j]);
@@ -449,7 +456,7 @@ struct Run {
       auto e = r.pick(cand);
       if (r.chance(1, 2)) std::swap(e.first, e.second);
       int closes = 0; for (int v : av) if (M.in[bit(v) | bit(e.first)] && M.in[bit(v) | bit(e.second)]) ++closes;
-      if (op < 14) {
+      if (op < 17) {
         c.log("add_edge " + vh::str(e.first) + " " + vh::str(e.second));
         cx->add_edge(Vertex_handle(e.first), Vertex_handle(e.second));
         M.add_edge(e.first, e.second);
@@ -463,11 +470,18 @@ struct Run {
       c.count(closes ? "op.add_edge_without_blockers.closing_triangles" : "op.add_edge_without_blockers.plain");
       return observe(std::string("op=add_edge_without_blockers,") + (closes ? "closing_triangles" : "plain"));
     }
-    if (op < 38) {
+    if (op < 45) {
       // add_simplex of an absent simplex of dimension >= 2 on present vertices
       Mask s = 0; std::string cls;
-      if (!bl.empty() && r.chance(3, 5)) { s = r.pick(bl); cls = "boundary_present"; }  // absent with all proper faces present = a blocker
-      else {
+      unsigned mode = (unsigned)r.below(10);
+      if (!bl.empty() && mode < 5) { s = r.pick(bl); cls = "boundary_present"; }  // absent with all proper faces present = a blocker
+      else if (!bl.empty() && mode < 7) {
+        // a proper superset of a blocker: absent, and some of its proper faces are absent too
+        s = r.pick(bl) | random_subset(r, av, 1 + (int)r.below(2));
+        bool bp = M.minimal_nonface(s), edges = true;
+        for (int a = 0; a < M.N; ++a) for (int b = a + 1; b < M.N; ++b) if ((s & bit(a)) && (s & bit(b)) && !M.in[bit(a) | bit(b)]) edges = false;
+        cls = bp ? "boundary_present" : edges ? "faces_missing" : "edges_missing";
+      } else {
         if (av.size() < 3) { c.count("skip.add_simplex_few_vertices"); return true; }
         for (int t = 0; t < 6 && !s; ++t) { Mask m = random_subset(r, av, 3 + (int)r.below(std::min<size_t>(av.size() - 2, 3))); if (!M.in[m]) s = m; }
         if (!s) { c.count("skip.add_simplex_none_absent"); return true; }
@@ -485,9 +499,9 @@ struct Run {
       meaningful_edit = true;
       return observe("op=add_simplex," + cls);
     }
-    if (op < 72) {
+    if (op < 71) {
       // remove_star of a vertex / edge / simplex of dimension >= 2
-      int want_size = op < 49 ? 1 : op < 61 ? 2 : 3;
+      int want_size = op < 52 ? 1 : op < 62 ? 2 : 3;
       Mask s = 0;
       if (!bl.empty() && r.chance(1, 2)) {
         // inside a blocker of dimension >= 2 more
@@ -532,7 +546,7 @@ struct Run {
       if (!bl.empty()) meaningful_edit = true;
       return observe("op=remove_star." + kind + "," + cls, sc);
     }
-    if (op < 92) {
+    if (op < 88) {
       // contract an edge of the complex
       std::vector<std::pair<int, int>> cand, inb;
       for (size_t i = 0; i < av.size(); ++i) for (size_t j = i + 1; j < av.size(); ++j) if (M.in[bit(av[i]) | bit(av[j])]) {
@@ -585,9 +599,9 @@ struct Run {
       }
       return observe(opsig);
     }
-    if (op < 97) {
+    if (op < 96) {
       // add_blocker on a simplex of the complex (the documented way to make a blocker set): deletes its star
-      std::vector<Mask> cand = simplices_of_size(3, 32);
+      std::vector<Mask> cand = blocker_candidates();
       if (cand.empty()) { c.count("skip.add_blocker_no_candidate"); return true; }
       Mask s = r.pick(cand);
       c.log("add_blocker " + show(s));
